@@ -16,7 +16,8 @@ def setup():
         print('translated', k, 'changed' if v[1] else 'same')
     # remove generated modules no generator owns any more (e.g. a library that was removed)
     for f in os.listdir(translate.GEN_DIR):
-        if f.endswith('.lean') and f[:-5] not in translate.REGISTRY:
+        # only the per-library modules of harness/gen/libs.py are dynamic; other generators may write side files
+        if f.endswith('.lean') and f[:-5] not in translate.REGISTRY and f.startswith(('Lib_', 'LibObl_', 'Uq_', 'UqObl_')):
             os.remove(os.path.join(translate.GEN_DIR, f))
             print('removed stale', f)
     with common.Lock():
